@@ -85,7 +85,7 @@ impl ToTokens for DeriveInputShapeSet {
                         ::darling::export::syn::Data::Enum(ref data) => {
                             if enum_check.is_empty() {
                                 return ::darling::export::Err(
-                                    ::darling::Error::unsupported_shape_with_expected("enum", &format!("struct with {}", struct_check))
+                                    ::darling::Error::unsupported_shape_with_expected("enum", &::darling::export::format!("struct with {}", struct_check))
                                 );
                             }
 
@@ -99,7 +99,7 @@ impl ToTokens for DeriveInputShapeSet {
                         ::darling::export::syn::Data::Struct(ref struct_data) => {
                             if struct_check.is_empty() {
                                 return ::darling::export::Err(
-                                    ::darling::Error::unsupported_shape_with_expected("struct", &format!("enum with {}", enum_check))
+                                    ::darling::Error::unsupported_shape_with_expected("struct", &::darling::export::format!("enum with {}", enum_check))
                                 );
                             }
 
@@ -224,7 +224,7 @@ impl ToTokens for DataShape {
         }
 
         tokens.append_all(quote! {
-            ::darling::util::ShapeSet::new(vec![#(#shapes),*])
+            ::darling::util::ShapeSet::new(::darling::export::Vec::from([#(#shapes),*]))
         });
     }
 }
